@@ -140,7 +140,21 @@ func ruleXY(rule string, files []string, minInstances int) func(*Ctx) {
 			key := fmt.Sprintf("%s:%s:point#%d", rule, in.fn, cnt[in.fn])
 			ok := axisSwap(in.x) == in.y
 			if !ok {
-				if reason, ex := xyExempt[in.fn]; ex {
+				reason, ex := xyExempt[in.fn]
+				if !ex {
+					// code moved out of an exempt function into a helper the reference record does not know keeps the
+					// exemption (same asymmetric construction, new home)
+					for efn, r := range xyExempt {
+						if ef := c.fnOpt(efn); ef != nil {
+							for _, g := range freshRegion(c, ef)[1:] {
+								if c.fname(g) == in.fn {
+									reason, ex = r+" (moved out of "+efn+")", true
+								}
+							}
+						}
+					}
+				}
+				if ex {
 					usedExempt[in.fn] = true
 					c.add(Ob{Rule: rule, Key: key, Pos: c.pos(in.pos), Func: in.fn, Status: Pass, Detail: fmt.Sprintf("exempt (%s): X=%s Y=%s", reason, in.x, in.y)})
 					continue
